@@ -319,8 +319,18 @@ def check(spec):
     ELEMENTWISE[0] = not spec.get("final")
     USER_META[0] = uses_user_meta(spec)
     BARE[0] = bool(spec.get("final")) and not spec.get("ops")
+    def _acc_over_missing(n):
+        # .dt.<property> / .str.len() of an input column that really holds missing values: pandas computes float
+        # (int without missing values), and a LATER filter may remove the very rows that made it float, so the reason
+        # is visible in the input, not in the result
+        if n.get("e") != "acc" or not (n.get("prop") or n.get("m") == "len"):
+            return False
+        x = n.get("x") or {}
+        return x.get("e") == "col" and x.get("name") in case.pdf.columns and bool(case.pdf[x["name"]].isna().any())
+
     REPLACES[0] = any(
         n.get("op") in ("where", "mask", "fillna", "clip") or n.get("e") in ("where", "mask") or n.get("m") in ("fillna", "clip") or "min_count" in (n.get("kw") or {})
+        or _acc_over_missing(n)
         for n in D.walk([spec.get("ops", []), spec.get("final") or {}])
     )
     UPSTREAM_UPCAST[0] = False
